@@ -9,7 +9,7 @@ import l1b
 
 PROP = "C07"
 RULE = ("real readers (4 formats) on spec-written files; per line a quality word: every single bit, random words, "
-        "words with only non-mask bits; a case = (format, line number, quality word); non-trivial = distinct "
+        "words with only non-mask bits; three unflagged lines per pass with out-of-range latitudes; a case = (format, line number, quality word); non-trivial = distinct "
         "(family, quality word) whose mask bits or summary bits are not all zero, or that has >= 2 other bits set")
 ASSUME = ["numpy '&' on >u4 and astype(bool) as modelled (anybit)", "xarray .where(mask) blanks whole rows",
           "float64 NaN is the blank value"]
@@ -63,9 +63,10 @@ def run(res, tier, seed):
              ("lac_pod", "noaa9", 40, "clean"), ("gac_pod", "noaa12", 60, "wrapped"), ("gac_klm", "noaa17", 60, "dropped"),
              ("gac_pod", "noaa7", 60, "dropped"),
              # POD with the clock-drift correction switched on (real table, TLE): neighbours of flagged lines must stay valid
-             ("gac_pod", "noaa14", 60, "clean-drift"), ("lac_pod", "noaa14", 40, "clean-drift")]
+             ("gac_pod", "noaa14", 60, "clean-drift"), ("lac_pod", "noaa14", 40, "clean-drift"),
+             ("gac_klm", "noaa19", 1300, "clean")]   # a pass of more than 1024 lines
     if tier == "thorough":
-        plans = [(f, s, n * 6, k) for f, s, n, k in plans] + [("gac_klm", "metopa", 600, "clean"), ("gac_pod", "noaa14", 600, "clean"), ("gac_klm", "noaa19", 4300, "clean"),
+        plans = [(f, s, n * 6 if n < 1000 else n, k) for f, s, n, k in plans] + [("gac_klm", "metopa", 600, "clean"), ("gac_pod", "noaa14", 600, "clean"), ("gac_klm", "noaa19", 4300, "clean"),
                                                              ("lac_pod", "noaa11", 90, "wrapped"), ("lac_klm", "metopc", 90, "dropped")]
     cases, meta = [], []
     with common.scratch_dir() as d:
@@ -88,10 +89,19 @@ def run(res, tier, seed):
                 numbers[rng.randrange(5, n - 5)] = 20000 if l1b.FMT[fmt]["res"] == "gac" else 65535
             sws = [rng.choice([0, 1]) for _ in range(n)]
             lines = l1b.default_lines(fmt, n, start, counts=wb, qual=qs, switch=sws, numbers=numbers)
+            # a few lines carry out-of-range latitudes (95 degrees) in all tie points: their coordinates are invalid (C06),
+            # but that is not a quality flag -- channels and mask of such a line must not change
+            oor_idx = rng.sample(range(n), 3) if pattern != "clean-drift" else []
+            sc_ = 1e4 if fam == "klm" else 128.0
+            for i_ in oor_idx:
+                lines[i_]["lats"] = [int(95 * sc_)] * 51
+                lines[i_]["oor"] = True
             data = l1b.build_file(fmt, sc, start, lines)
             # twin file: all non-mask bits of every quality word cleared
             keep = sum(1 << b for b in MASKBITS[fam])
             lines2 = l1b.default_lines(fmt, n, start, counts=wb, qual=[q & keep for q in qs], switch=sws, numbers=numbers)
+            for i_ in oor_idx:
+                lines2[i_]["lats"] = [int(95 * sc_)] * 51
             data2 = l1b.build_file(fmt, sc, start, lines2)
             plan_no = plans.index((fmt, sc, n, pattern))
             # every other pass is read with tie-point-only coordinates (interpolation off): the blanking must be the same
@@ -113,6 +123,12 @@ def run(res, tier, seed):
                 mask = np.asarray(r.mask)
                 qf = r.get_qual_flags()
                 P, P2 = products(r), products(r2)
+                mask_after = np.asarray(r.mask)
+                if not np.array_equal(mask, mask_after):
+                    res.violations.append(("the mask of corrupt lines changed while the products were computed",
+                                           dict(fmt=fmt, spacecraft=sc, pattern=pattern, interpolate_coords=kw["interpolate_coords"],
+                                                lines_added=[int(x) for x in np.flatnonzero(mask_after & ~mask)][:8],
+                                                out_of_range_latitude_lines=[j for j, l in enumerate(lines) if l.get("oor")])))
             except Exception as e:  # noqa
                 import traceback
                 res.violations.append(("exception while computing the products of a pass (%s line numbers): %r" % (pattern, e),
@@ -129,6 +145,8 @@ def run(res, tier, seed):
                 res.add_case((fam, q, pattern), nontriv, dict(format=fmt, line=lines[i]["n"], quality_word=hex(q), numbering=pattern))
                 # ---- oracle on the implementation, independent of the model ----
                 for nm, arr in P.items():
+                    if lines[i].get("oor") and not nm.startswith("ch"):
+                        continue   # coordinates (and the angles derived from them) of a line without valid latitudes are NaN by C06
                     rowv = arr[i]
                     allnan = bool(np.all(np.isnan(rowv)))
                     if exp and not allnan:
